@@ -949,7 +949,7 @@ func (f *frame) callsiteBefore(cs *CallsiteC, c *ssa.CallCommon, args []TV, st *
 }
 
 func (f *frame) callsiteAfter(cs *CallsiteC, c *ssa.CallCommon, args []TV, res TV, st *bstate, label string, in ssa.Instruction) {
-	if len(cs.After) == 0 && len(cs.Assume) == 0 && len(cs.Preserves) == 0 {
+	if len(cs.After) == 0 && len(cs.Assume) == 0 && len(cs.Preserves) == 0 && len(cs.Havoc) == 0 {
 		return
 	}
 	env := f.callEnv(c, args, st)
@@ -962,6 +962,10 @@ func (f *frame) callsiteAfter(cs *CallsiteC, c *ssa.CallCommon, args []TV, res T
 		}
 	}
 	f.preserved = nil
+	for _, h := range cs.Havoc {
+		f.havocModifies(h, env, st)
+		f.vc.note("interference at call site " + label + ": " + h + " is arbitrary afterwards")
+	}
 	env = f.callEnv(c, args, st)
 	f.anchorAt(env, in, true)
 	f.localsEnv(env, st)
